@@ -15,6 +15,7 @@ kill/restart the node still holds everything it acknowledged.
 """
 import logging
 import os
+import signal
 import time
 
 from harness.sim import Sim
@@ -24,6 +25,7 @@ PROPERTIES = ["C09", "C06"]
 ORDER = 10
 
 SIG = "serializer:own-dump-child-overwrites-installed-snapshot"
+SIG_KILLED = "serializer.dump:journal-trimmed-after-killed-writer"
 
 
 def _dump_pos(sim, fn):
@@ -144,11 +146,81 @@ def scenario(repo, tmpdir, seed=1):
     return sim, viols, notes
 
 
+def scenario_killed_writer(repo, tmpdir, seed=1):
+    """Not a defect of the unchanged tree — a monitor at SyncObj level: the fork dump writer is killed by SIGKILL
+    before it wrote anything; `checkSerializing` must report FAILED and `__tryLogCompaction` must not trim the journal:
+    the journal head stays covered by the dump on disk (here: no dump, so the journal must still start at its
+    first entry), and after kill/restart the node holds everything it acknowledged."""
+    if not hasattr(os, "fork"):
+        return [], {"note": "no fork on this platform"}
+    sim = Sim(repo, ["a", "b"], seed=seed, journal_dir=tmpdir, dump=True,
+              conf={"useFork": False, "logCompactionMinEntries": 100000, "logCompactionMinTime": 100000})
+    import pysyncobj.serializer as sermod
+    notes, viols = {}, []
+    sim.connect_all()
+    L = sim.elect()
+    F = [i for i in sim.voters if i != L][0]
+    for k in range(8):
+        sim.submit(L, "k%d" % k)
+    sim.run(10)
+    f_ser = sim.P(F, "serializer")
+    fn = getattr(f_ser, "_Serializer__fileName")
+    setattr(f_ser, "_Serializer__useFork", True)
+    first0 = sim.log_of(F)[0][0]
+    acked = sim.log_of(F)[-1][0]
+    parent = os.getpid()
+    rfd, wfd = os.pipe()
+    saved_open = sermod.__dict__.get("open")
+
+    def gated_open(path, mode="r", *a, **kw):
+        if os.getpid() != parent and "w" in mode:
+            os.read(rfd, 1)
+        return open(path, mode, *a, **kw)
+    sermod.open = gated_open
+    try:
+        sim.compact(F)
+        sim.tick(F, 0.0625)
+        child = getattr(f_ser, "_Serializer__pid")
+        notes["child_forked"] = child > 0
+        if child > 0:
+            os.kill(child, signal.SIGKILL)                 # OOM killer / operator
+            os.waitid(os.P_PID, child, os.WEXITED | os.WNOWAIT)
+    finally:
+        os.close(rfd)
+        os.close(wfd)
+        if saved_open is None:
+            del sermod.open
+        else:
+            sermod.open = saved_open
+    sim.tick(F, 0.0625)                                    # checkSerializing -> must be FAILED
+    sim.tick(F, 0.0625)
+    dp = _dump_pos(sim, fn) if os.path.exists(fn) else None
+    head = sim.log_of(F)[0][0]
+    notes.update({"dump_position": dp, "journal_head": head, "journal_head_before": first0})
+    sim.kill(F)
+    sim.restart(F)
+    sim.tick(F, 0.0625)
+    after = [e[0] for e in sim.log_of(F)]
+    notes["journal_after_restart"] = (after[0], after[-1]) if after else None
+    covered = (head <= first0) if dp is None else (isinstance(dp, int) and head <= dp)
+    if notes["child_forked"] and (not covered or not after or after[0] > first0 and dp is None or after[-1] < acked):
+        viols.append({"signature": SIG_KILLED,
+                      "what": "the fork dump writer of %s was killed by SIGKILL before writing anything (dump on disk: %s), yet the "
+                              "journal was trimmed: head %s -> %s; entries %s..%s exist neither in a dump nor in the journal; after "
+                              "kill/restart the journal holds %s" % (F, "position %s" % dp if dp is not None else "none", first0, head,
+                                                                     first0, head - 1, notes["journal_after_restart"])})
+    return viols, notes
+
+
 def run(ctx):
     t0 = time.time()
     sim, viols, notes = scenario(ctx.repo, ctx.tmpdir())
+    v2, n2 = scenario_killed_writer(ctx.repo, ctx.tmpdir())
+    viols = viols + v2
+    notes = dict(notes, killed_writer=n2)
     r = result("witness.d66_own_dump_overwrites_installed_snapshot",
                tag(viols, "d66_own_dump_overwrites_installed_snapshot", {}), notes, t0)
+    r["cases"] = r["distinct"] = 2
     if not viols and not notes.get("child_forked") and hasattr(os, "fork"):
         r["inconclusive"] = "D66 witness: the follower never forked a dump child: %s" % notes
     return r
@@ -156,4 +228,6 @@ def run(ctx):
 
 def replay(ctx, violation):
     sim, viols, notes = scenario(ctx.repo, ctx.tmpdir())
-    return {"violated": bool(viols), "violations": viols[:3], "notes": notes}
+    v2, n2 = scenario_killed_writer(ctx.repo, ctx.tmpdir())
+    viols = viols + v2
+    return {"violated": bool(viols), "violations": viols[:3], "notes": dict(notes, killed_writer=n2)}
